@@ -84,7 +84,16 @@ func (f *ChangeClass) Call(s *slip.Scope, args slip.List, depth int) slip.Object
 					}
 				}
 				if !inited {
-					ti.vars[name] = sd.initform
+					// As for a new instance, the most specific initform
+					// of the slot, maybe inherited, is evaluated.
+					ti.vars[name] = slip.Unbound
+					if fd := ti.Type.initFormMap()[name]; fd != nil {
+						var v slip.Object
+						if fd.initform != nil {
+							v = fd.initform.Eval(s, depth+1)
+						}
+						ti.setSlot(s, fd, v, depth)
+					}
 				}
 			}
 		}
